@@ -1,6 +1,6 @@
 //! C14 — VarInt: implementation results for decode / encode operations.
 use crate::common::*;
-use monero::consensus::encode::{deserialize_partial, serialize, VarInt, Encodable};
+use monero::consensus::encode::{deserialize, deserialize_partial, serialize, VarInt, Encodable, Decodable, Error};
 
 pub fn dec_line(b: &[u8]) -> String {
     match deserialize_partial::<VarInt>(b) { Ok((v, k)) => format!("ok {} {}", v.0, k), Err(_) => "err".into() }
@@ -10,10 +10,50 @@ pub fn enc_line(n: u64) -> String {
     let len = VarInt(n).consensus_encode(&mut w).unwrap();
     format!("{} {}", hex(&w), len)
 }
+/// The two `ParseFailed` messages of the VarInt decoder as the library itself produces them on two reference inputs
+/// (`80 00`: zero rule; `ff^9 7f`: overflow). Other failures are classified by comparing with these, so a reworded message is
+/// not an alarm while a failure that reports the OTHER condition's message is.
+fn ref_msgs() -> (Option<&'static str>, Option<&'static str>) {
+    let m = |b: &[u8]| match deserialize_partial::<VarInt>(b) { Err(Error::ParseFailed(m)) => Some(m), _ => None };
+    (m(&[0x80, 0x00]), m(&[0xff, 0xff, 0xff, 0xff, 0xff, 0xff, 0xff, 0xff, 0xff, 0x7f]))
+}
+/// decode with what is collapsed in `varint_dec` made visible: the kind of failure and the reader position at the failure
+pub fn decx_line(b: &[u8]) -> String {
+    let mut c = std::io::Cursor::new(b);
+    let r = VarInt::consensus_decode(&mut c);
+    let pos = c.position() as usize;
+    match r {
+        Ok(v) => format!("ok {} {}", v.0, pos),
+        Err(Error::Io(e)) => format!("err:{} {}", if e.kind() == std::io::ErrorKind::UnexpectedEof { "eof" } else { "io" }, pos),
+        Err(Error::ParseFailed(m)) => {
+            let (z, ov) = ref_msgs();
+            let kind = if z.is_some() && ov.is_some() && z == ov {
+                // the library uses one message for both conditions: the position tells them apart (zero rule fires on a zero byte)
+                if pos >= 2 && b[pos - 1] == 0 { "zero" } else { "overflow" }
+            } else if Some(m) == z { "zero" } else if Some(m) == ov { "overflow" } else { "other" };
+            format!("err:{} {}", kind, pos)
+        }
+        Err(_) => format!("err:other {}", pos),
+    }
+}
+/// an `io::Write` that accepts `ok` bytes and then fails: what reached the sink before the error is observable
+/// (`once`: the failure is transient — only the first write that does not fit fails, later writes are accepted again, so bytes
+/// emitted AFTER an error was met show up in `buf`)
+struct FailWriter { buf: Vec<u8>, ok: usize, once: bool, failed: bool }
+impl std::io::Write for FailWriter {
+    fn write(&mut self, b: &[u8]) -> std::io::Result<usize> {
+        if self.once && self.failed { self.buf.extend_from_slice(b); return Ok(b.len()); }
+        if self.buf.len() >= self.ok { self.failed = true; return Err(std::io::Error::new(std::io::ErrorKind::Other, "sink full")); }
+        let n = b.len().min(self.ok - self.buf.len()); self.buf.extend_from_slice(&b[..n]); Ok(n)
+    }
+    fn flush(&mut self) -> std::io::Result<()> { Ok(()) }
+}
 pub fn exec(t: &[&str]) -> Option<String> {
     match t {
         ["varint_dec", h] => Some(dec_line(&unhex(h))),
         ["varint_enc", n] => Some(enc_line(n.parse().ok()?)),
+        ["varint_decx", h] => Some(decx_line(&unhex(h))),
+        ["varint_des", h] => Some(match deserialize::<VarInt>(&unhex(h)) { Ok(v) => format!("ok {}", v.0), Err(_) => "err".into() }),
         _ => None,
     }
 }
@@ -25,8 +65,62 @@ fn dec_case(o: &mut Out, b: &[u8], fam: &str) {
         let s = serialize(&v);
         o.direct(s[..] == b[..k], "varint: serialize(parse b) == b[..consumed]", format!("varint_dec {}", hex(b)), hex(&s), hex(&b[..k]));
     }
+    // the decoder behind a one-byte-per-call `io::Read`, on EVERY input (malformed ones included): same verdict, value, count
+    let whole = deserialize_partial::<VarInt>(b).ok().map(|(v, k)| (v.0, k));
+    let cr = decode_chunked::<VarInt>(b).map(|(v, k)| (v.0, k));
+    o.direct(cr == whole, "varint: consensus_decode from a short-reading io::Read agrees with the slice decoder on any input", format!("varint_dec {}", hex(b)), format!("{:?}", cr), format!("{:?}", whole));
+    // independent arithmetic: ten leading continuation bytes can never be a u64 (70 value bits, or a zero top group, or no end)
+    if b.len() >= 10 && b[..10].iter().all(|x| *x >= 0x80) {
+        o.direct(r == "err", "varint: a string starting with ten continuation bytes is rejected", format!("varint_dec {}", hex(b)), r.clone(), "err".into());
+    }
     let nt = r != "err" || b.len() >= 2;
     o.op(format!("varint_dec {}", hex(b)), nt);
+}
+/// independent reading in Rust, in the result format of `varint_decx`: the position of the first byte without continuation bit
+/// decides everything (none: end of input after all bytes; a zero byte there, not first: zero rule; else the value, in 128 bits)
+fn positional(b: &[u8]) -> String {
+    match b.iter().position(|x| *x < 0x80) {
+        None => format!("err:eof {}", b.len()),
+        Some(i) if i >= 1 && b[i] == 0 => format!("err:zero {}", i + 1),
+        Some(i) => {
+            let mut v: u128 = 0; let mut big = false;
+            for (j, x) in b[..=i].iter().enumerate() { if j * 7 < 120 { v |= ((x & 0x7f) as u128) << (7 * j); } else if x & 0x7f != 0 { big = true; } }
+            if big || v > u64::MAX as u128 { format!("err:overflow {}", i + 1) } else { format!("ok {} {}", v, i + 1) }
+        }
+    }
+}
+/// the same input through the operations that show what `varint_dec` collapses: failure kind + reader position, and the
+/// whole-buffer entry point `deserialize::<VarInt>`
+fn decx_case(o: &mut Out, b: &[u8], fam: &str) {
+    let r = decx_direct(o, b, fam);
+    o.op(format!("varint_decx {}", hex(b)), b.len() >= 2 || r.starts_with("ok"));
+    o.op(format!("varint_des {}", hex(b)), b.len() >= 2 || r.starts_with("ok"));
+}
+/// the Rust-side part of `decx_case` alone (no operation line: usable on inputs too long for the list-based Lean model to
+/// evaluate in reasonable time)
+fn decx_direct(o: &mut Out, b: &[u8], fam: &str) -> String {
+    let r = decx_line(b);
+    o.stat(&format!("decx.{}.{}", fam, r.split(' ').next().unwrap_or("")));
+    let want = positional(b);
+    let id = if b.len() <= 64 { hex(b) } else { format!("{}..({} bytes)..{}", hex(&b[..8]), b.len(), hex(&b[b.len() - 2..])) };
+    o.direct(r == want, "varint: verdict / failure kind / reader position equal the direct positional reading", format!("varint_decx {}", id), r.clone(), want);
+    let des = deserialize::<VarInt>(b).ok().map(|v| v.0);
+    let want_des = match deserialize_partial::<VarInt>(b) { Ok((v, k)) if k == b.len() => Some(v.0), _ => None };
+    o.direct(des == want_des, "varint: deserialize accepts iff deserialize_partial accepts and consumes everything", format!("varint_des {}", id), format!("{:?}", des), format!("{:?}", want_des));
+    r
+}
+/// the encoder behind a sink that fails after `ok` bytes: an error is returned iff the encoding does not fit, and exactly the
+/// first `ok` bytes of the encoding reached the sink, in order (nothing emitted after the failure, nothing reordered)
+fn enc_fail_case(o: &mut Out, n: u64) {
+    let w = serialize(&VarInt(n));
+    for (ok, once) in (0..=w.len()).flat_map(|k| [(k, false), (k, true)]) {
+        let mut fw = FailWriter { buf: vec![], ok, once, failed: false };
+        let r = VarInt(n).consensus_encode(&mut fw).ok();
+        let want = if ok >= w.len() { Some(w.len()) } else { None };
+        let upto = ok.min(w.len());
+        o.direct(r == want && fw.buf[..] == w[..upto], "varint: consensus_encode into a sink failing after j bytes errs iff j < len and has written exactly the first j bytes", format!("varint_enc {} (sink fails after {}{})", n, ok, if once { ", once" } else { "" }), format!("{:?} {}", r, hex(&fw.buf)), format!("{:?} {}", want, hex(&w[..upto])));
+    }
+    o.stat("enc.failing_sink");
 }
 fn enc_case(o: &mut Out, n: u64) {
     let w = serialize(&VarInt(n));
@@ -84,6 +178,83 @@ pub fn run(o: &mut Out, tier: &str, seed: u64) {
         for x in b.iter_mut() { if rng.chance(3, 4) { *x |= 0x80; } }
         if rng.chance(1, 2) { let l = b.len(); b[l - 1] &= 0x7f; }
         dec_case(o, &b, "random");
+    }
+    // ---- families added by the audit round; their own generator so that the streams above are unchanged ----
+    let mut rx = Rng::new(seed ^ 0xc14a_0d17_5eed_0001);
+    // (6) the first 45 `vals` (every width boundary, 0, 1, 127, 128, 2^63, u64::MAX): EVERY truncation, a suffix, both non-minimal
+    //     spellings, deterministically in every run (the sampled variants above reach them only with probability 1/4)
+    let n_bnd = 9 + 9 * 4;
+    for &n in &vals[..n_bnd] {
+        let w = serialize(&VarInt(n));
+        enc_fail_case(o, n);
+        dec_case(o, &w, "bnd.exact"); decx_case(o, &w, "bnd.exact");
+        for k in 0..w.len() { dec_case(o, &w[..k], "bnd.truncated"); decx_case(o, &w[..k], "bnd.truncated"); }
+        for sfx in [vec![0x00u8], vec![0x80], vec![0xff, 0x01], rx.bytes(3)] { let mut t = w.clone(); t.extend_from_slice(&sfx); dec_case(o, &t, "bnd.suffix"); decx_case(o, &t, "bnd.suffix"); }
+        let mut z = w.clone(); let l = z.len(); z[l - 1] |= 0x80;
+        for j in 0..3usize { let mut y = z.clone(); y.extend(std::iter::repeat(0x80).take(j)); y.push(0); dec_case(o, &y, "bnd.nonminimal"); decx_case(o, &y, "bnd.nonminimal");
+            y.push(0x01); dec_case(o, &y, "bnd.nonminimal+"); decx_case(o, &y, "bnd.nonminimal+"); }
+        // an interior zero GROUP (0x80) is legal, an interior zero BYTE ends the string
+        if w.len() >= 2 { let mut y = w.clone(); y[0] = 0x80; dec_case(o, &y, "bnd.zero_low_group"); decx_case(o, &y, "bnd.zero_low_group");
+            let mut y = w.clone(); y.insert(1, 0x00); dec_case(o, &y, "bnd.zero_byte_inside"); decx_case(o, &y, "bnd.zero_byte_inside");
+            let mut y = w.clone(); y.insert(1, 0x80); dec_case(o, &y, "bnd.zero_group_inside"); decx_case(o, &y, "bnd.zero_group_inside"); }
+    }
+    // (7) the 10-byte family, exhaustive in the last byte (which single bits of the top group are allowed), and the 9-byte one
+    for p in &prefixes { for l in 0..=255u8 {
+        let mut b = p.clone(); b.push(l); dec_case(o, &b, "len10x"); decx_case(o, &b, "len10x");
+        if l & 0x0f == 0x01 || l == 0 || l == 0x7f || l == 0x80 { let mut b9 = p[..8].to_vec(); b9.push(l); decx_case(o, &b9, "len9x"); b.push(0x01); decx_case(o, &b, "len11x"); }
+    } }
+    // (8) long strings: far more continuation bytes than any u64 needs (a bounded loop would fall through to accumulation)
+    let mut ks: Vec<usize> = (12..=20).collect(); ks.extend_from_slice(&[33, 100, 1000]);
+    if tier == "thorough" { ks.push(8_192); }
+    for &k in &ks { for c in [0x80u8, 0x81, 0xff] {
+        if k > 1000 && c == 0x81 { continue; }
+        for end in [Some(0x00u8), Some(0x01), Some(0x7f), None] {
+            let mut b = vec![c; k]; if let Some(e) = end { b.push(e); }
+            dec_case(o, &b, "long"); decx_case(o, &b, "long");
+        }
+    } }
+    // 64 KiB and 1 MiB of continuation bytes: real decoder against the positional reading only (the list-based Lean model is
+    // quadratic in the number of groups: ~10 s per such line)
+    for k in [65_536usize, 1 << 20] { for c in [0x80u8, 0xff] { for end in [Some(0x00u8), Some(0x01), Some(0x7f), None] {
+        let mut b = vec![c; k]; if let Some(e) = end { b.push(e); }
+        let r = decx_direct(o, &b, "huge");
+        o.direct(r.starts_with("err"), "varint: a string starting with ten continuation bytes is rejected", format!("varint_decx {:02x}^{} {:?}", c, k, end), r.clone(), "err".into());
+    } } }
+    // (10) EVERY string of three bytes, in the quick tier too: real decoder (verdict, value, failure kind, reader position) against the
+    //      positional reading, in Rust only (no operation lines; the model sees this domain in the thorough tier, family (2))
+    let mut bad = 0u32;
+    for a in 0..=255u8 { for b in 0..=255u8 { for c in 0..=255u8 {
+        let s3 = [a, b, c];
+        let (r, want) = (decx_line(&s3), positional(&s3));
+        if r != want { bad += 1; if bad <= 5 { o.direct(false, "varint: verdict / failure kind / reader position equal the direct positional reading", format!("varint_decx {}", hex(&s3)), r, want); } }
+    } } }
+    o.direct(bad == 0, "varint: all 16 777 216 three-byte strings agree with the positional reading", "varint_decx <all 3-byte strings>".into(), format!("{} disagreements", bad), "0 disagreements".into());
+    o.stat_n("decx.len3.direct_only", 1 << 24);
+    // (9) error kind / position / whole-buffer entry point on: a slice of the exhaustive 2-byte domain (all of it in thorough), the
+    //     1-byte domain, the boundary families of (3), a third of fresh random strings, encodings with and without suffix
+    dec_case(o, &[], "len0"); decx_case(o, &[], "len0");
+    for a in 0..=255u8 { decx_case(o, &[a], "len1"); }
+    let mut firsts: Vec<u8> = vec![0x00, 0x01, 0x7f, 0x80, 0x81, 0xfe, 0xff];
+    if tier == "thorough" { firsts = (0..=255u8).collect(); } else { for _ in 0..9 { firsts.push(rx.byte()); } }
+    for &a in &firsts { for b in 0..=255u8 { decx_case(o, &[a, b], "len2"); } }
+    for p in &prefixes { for &l in &lasts {
+        let mut b = p.clone(); b.push(l);
+        for &l2 in &lasts { let mut c = b.clone(); c.push(l2); decx_case(o, &c, "len11"); }
+    } }
+    let n_x = if tier == "thorough" { 60_000 } else { 6_000 };
+    for i in 0..n_x {
+        let len = if rx.chance(1, 8) { rx.range(13, 40) } else { rx.range(1, 12) } as usize;
+        let mut b = rx.bytes(len);
+        for x in b.iter_mut() { if rx.chance(3, 4) { *x |= 0x80; } }
+        if rx.chance(1, 2) { let l = b.len(); b[l - 1] &= 0x7f; }
+        if rx.chance(1, 6) { let j = rx.below(len as u64) as usize; b[j] = 0; }
+        if len > 12 { dec_case(o, &b, "randomx"); }
+        decx_case(o, &b, "randomx");
+        if i % 3 == 0 {
+            let n = rx.u64_boundary(); let mut w = serialize(&VarInt(n)); decx_case(o, &w, "encx");
+            let k = rx.below(3) as usize + 1; w.extend_from_slice(&rx.bytes(k)); decx_case(o, &w, "encx+suffix");
+            if i % 30 == 0 { enc_fail_case(o, n); }
+        }
     }
     o.notes.push("nontrivial rule: every encode case; decode cases that are accepted or have >= 2 bytes".into());
 }
